@@ -7,15 +7,15 @@ CLAIM = ('Proved in Coq for the model, Numbers naming, direct mode, EVERY histor
          'records in order, also for kills inside a rotation or the initialisation (C11_numbers_kill_keeps_acked); a logger '
          'started on that directory with any capacity, criterion and append flag succeeds in every operation and ends with '
          'exactly acknowledged ++ its own records (C11_numbers_kill_restart; bound: first run shorter than 2^32 operations). For '
-         'the time-stamp namings (and cleanup with other namings than Numbers) the property is decided per explored history and '
-         'kill point: the first part of each history runs in a child process in which the k-th file-system effect (write, '
-         'rename, create, remove, symlink replacement, gzip create / copy / finish) aborts the process; the parent starts a new '
-         'logger on the directory as it is (append on or off), logs on, and an executable oracle checks that the restart and all '
-         'later operations succeed, that every acknowledged direct-mode record and every later record is in the stream in order '
-         '(a tail under a cleanup limit; an archive next to its complete original is ignored), and that a configured symlink '
-         'leads to the file being written; the model predicts the directory the kill leaves and everything after it '
-         '(correspondence): partial. Assumption: each file-system call is atomic with respect to the kill, and a killed process '
-         'loses no page-cache data. The two history-level theorems are also proved for NumbersDirect naming '
+         'custom formats and for cleanup with other namings than Numbers the property is decided per explored history and kill '
+         'point: the first part of each history runs in a child process in which the k-th file-system effect (write, rename, '
+         'create, remove, symlink replacement, gzip create / copy / finish) aborts the process; the parent starts a new logger '
+         'on the directory as it is (append on or off), logs on, and an executable oracle checks that the restart and all later '
+         'operations succeed, that every acknowledged direct-mode record and every later record is in the stream in order (a '
+         'tail under a cleanup limit; an archive next to its complete original is ignored), and that a configured symlink leads '
+         'to the file being written; the model predicts the directory the kill leaves and everything after it (correspondence): '
+         'partial. Assumption: each file-system call is atomic with respect to the kill, and a killed process loses no page- '
+         'cache data. The two history-level theorems are also proved for NumbersDirect naming '
          '(C11_numbersdirect_kill_keeps_acked, C11_numbersdirect_kill_restart). WITH A CLEANUP STRATEGY (proved, Numbers naming, '
          'cleanup in the logging thread, direct mode, every history and every kill point - those inside the cleanup included: '
          'remove_file, and in compress_file create archive / copy / finish / remove original): what the killed process leaves, '
@@ -25,8 +25,16 @@ CLAIM = ('Proved in Coq for the model, Numbers naming, direct mode, EVERY histor
          'with the same configuration succeeds in every operation, repairs the leftovers with its first record and leaves a tail '
          'of acknowledged ++ own records in the shape a run without kill leaves (C11_numbers_cleanup_kill_restart; side '
          'conditions: the suffix does not end in .gz, the number of files closed by the killed writer fits into u32). All kill '
-         'points of small histories are also enumerated in Coq against the plain oracles (Flw/NumCleanupKillEx.v). ')
-THEOREMS = ["C11_numbers_kill_keeps_acked", "C11_numbers_kill_restart", "C11_dead_no_effect", "C11_kill_point", "C11_alive_effect", "C11_numbersdirect_kill_keeps_acked", "C11_numbersdirect_kill_restart", "C11_numbers_cleanup_kill_keeps_acked", "C11_numbers_cleanup_kill_restart"]
+         'points of small histories are also enumerated in Coq against the plain oracles (Flw/NumCleanupKillEx.v). THE TIME- '
+         'STAMP NAMINGS (proved, direct mode, clock not going backwards - it keeps running while the process is dead): '
+         'TimestampsDirect - what a kill at any point leaves is a view of pairwise distinct, ordered names whose files '
+         'concatenate to exactly the acknowledged records, possibly with one empty newest file (kill between creating a file and '
+         'the first write into it: C11_timestampsdirect_kill_keeps_acked, C11_timestampsdirect_kill_shape); a logger restarted '
+         'on it after any pause - own criterion, capacity, append flag - succeeds in every operation and ends with acknowledged '
+         '++ own records, no name used twice, also within the second of the kill (C11_timestampsdirect_kill_restart); Timestamps '
+         'with rCURRENT likewise, including the kill between the rename and the creation of the new rCURRENT, which leaves no '
+         'rCURRENT at all (C11_timestamps_kill_keeps_acked, C11_timestamps_kill_restart). ')
+THEOREMS = ["C11_numbers_kill_keeps_acked", "C11_numbers_kill_restart", "C11_dead_no_effect", "C11_kill_point", "C11_alive_effect", "C11_numbersdirect_kill_keeps_acked", "C11_numbersdirect_kill_restart", "C11_numbers_cleanup_kill_keeps_acked", "C11_numbers_cleanup_kill_restart", "C11_timestampsdirect_kill_keeps_acked", "C11_timestampsdirect_kill_shape", "C11_timestampsdirect_kill_restart", "C11_timestamps_kill_keeps_acked", "C11_timestamps_kill_restart"]
 TRUSTED = ["assumed: atomicity of single file-system calls under SIGABRT, no loss of written data in the page cache; the kill happens at "
            "the hook point immediately before a call, never inside one"]
 ASSUMPTIONS = ["the virtual clock does not advance within a crash history (file birth times are not carried over to the restarted process)"]
